@@ -1133,13 +1133,22 @@ mod pipeline {
         }
     }
 
+    // The commands are waited for front to back when the Vec is dropped.
+    // Before that, release every pipe end their Popens still hold: a
+    // command blocked writing to one of them (or waiting for end-of-file on
+    // it) would otherwise keep the commands before it from exiting, and the
+    // caller of an adapter has no other way to release them.
+    fn release_pipes(popens: &mut Vec<Popen>) {
+        for p in popens.iter_mut() {
+            p.stdin.take();
+            p.stdout.take();
+            p.stderr.take();
+        }
+    }
+
     impl Drop for ReadPipelineAdapter {
-        // Close the read end before the commands are waited for (front to
-        // back): otherwise the last command can block writing to it while an
-        // earlier command, blocked in turn, is being waited for.
         fn drop(&mut self) {
-            let last = self.0.last_mut().unwrap();
-            last.stdout.take();
+            release_pipes(&mut self.0);
         }
     }
 
@@ -1165,8 +1174,7 @@ mod pipeline {
     impl Drop for WritePipelineAdapter {
         // the same rationale as Drop for WriteAdapter
         fn drop(&mut self) {
-            let first = &mut self.0[0];
-            first.stdin.take();
+            release_pipes(&mut self.0);
         }
     }
 }
